@@ -84,7 +84,8 @@ def _pad_face_connections(
 
     if isinstance(da, dict):
         isvector = True
-        vectoraxis, da = da.popitem()
+        # (do not pop: the dictionary belongs to the caller)
+        ((vectoraxis, da),) = da.items()
     else:
         isvector = False
 
@@ -93,7 +94,7 @@ def _pad_face_connections(
         # TODO: We do not need to deal with other components
         # TODO: Need to integrate that choice deeper in the loop\.
         if other_component:
-            _, da_partner = other_component.popitem()
+            ((_, da_partner),) = other_component.items()
         else:
             # TODO: cover with a test.
             raise ValueError(
